@@ -115,7 +115,7 @@ class Exec:
             self.body = self.contract.body
             self.cls = None
         else:
-            self.mod, self.fn, self.cls = find_function(qualname, repo)
+            self.mod, self.fn, self.cls = find_function(qualname.split('#')[0], repo)
             self.body = self.fn.body
         self.obls = []
         self.counter = itertools.count()
@@ -233,6 +233,8 @@ class Exec:
             return SVal('T3', self.th.T3.mk3(*[self.to_int(x) for x in v.t]))
         if kind == 'E' and v.kind == 'ME' or kind == 'ME' and v.kind == 'E':
             return SVal(kind, v.t)
+        if kind == 'emap' and v.kind == 'map' and v.t.eq(self.th.m_empty):
+            return SVal('emap', self.th.em_empty)
         if isinstance(kind, tuple) and isinstance(v.kind, tuple) and kind[0] == 'seq' and v.kind[0] == 'seq' \
                 and kind[1] in ('E', 'ME') and v.kind[1] in ('E', 'ME'):
             return SVal(kind, v.t)
@@ -248,7 +250,7 @@ class Exec:
 
     def truth(self, v):
         k = v.kind
-        if k == 'bool':
+        if k == 'bool' or k == ('truth',):
             return v.t
         if k == 'int':
             return v.t != 0
@@ -312,6 +314,10 @@ class Exec:
             if not exact:
                 raise OutOfSubset('python == on dicts')
             return self.th.m_eq(a.t, b.t)
+        if k == 'emap':
+            if not exact:
+                raise OutOfSubset('python == on entry maps')
+            return self.th.em_eq(a.t, b.t)
         if k in ('str', 'path', 'E', 'ME', 'T3', 'fn', 'kset'):
             return a.t == b.t
         raise OutOfSubset('equality on kind %r' % (k,))
@@ -458,6 +464,14 @@ class Exec:
                 raise OutOfSubset('constant binop')
         seqa = isinstance(a.kind, tuple) and a.kind[0] == 'seq'
         seqb = isinstance(b.kind, tuple) and b.kind[0] == 'seq'
+        if a.kind == 'kset' and b.kind == 'kset':
+            if isinstance(op, ast.Sub):
+                return SVal('kset', self.th.ks_diff(a.t, b.t))
+            if isinstance(op, ast.BitAnd):
+                return SVal('kset', self.th.ks_inter(a.t, b.t))
+            if isinstance(op, ast.BitOr):
+                return SVal('kset', self.th.ks_union(a.t, b.t))
+            raise OutOfSubset('set operator %s' % type(op).__name__)
         if isinstance(op, ast.Add) and seqa and seqb:
             if a.kind == EMPTYLIST:
                 return b
@@ -481,9 +495,17 @@ class Exec:
         is_and = isinstance(node.op, ast.And)
         terms = []
         pushed = 0
+        allbool = True
+        if not is_and and len(node.values) == 2:
+            # `path or '/'`: the normalised path
+            v0 = self.ev(node.values[0], st)
+            if v0.kind == 'path' and isinstance(node.values[1], ast.Constant) and node.values[1].value == '/':
+                return SVal('path', self.th.path_norm(v0.t))
         try:
             for sub in node.values:
                 v = self.ev(sub, st)
+                if not (v.kind in ('bool', ('truth',)) or (v.kind == CONST and isinstance(v.t, bool))):
+                    allbool = False
                 t = self.truth(v)
                 terms.append(t)
                 g = t if is_and else (not t if isinstance(t, bool) else z3.Not(t))
@@ -495,7 +517,9 @@ class Exec:
         if all(isinstance(t, bool) for t in terms):
             return const(all(terms) if is_and else any(terms))
         zs = [self.zbool(t) for t in terms]
-        return SVal('bool', z3.And(*zs) if is_and else z3.Or(*zs))
+        # `a and b` / `a or b` over non-bool operands yields one of the operands, not a bool: such a result may only be
+        # used for its truth value
+        return SVal('bool' if allbool or self.spec_mode else ('truth',), z3.And(*zs) if is_and else z3.Or(*zs))
 
     def ev_IfExp(self, node, st):
         c = self.truth(self.ev(node.test, st))
@@ -540,6 +564,8 @@ class Exec:
                 r = a.t == b.t
             elif a.kind == 'fn' and b.kind == 'fn':
                 r = a.t == b.t
+            elif a.kind == ('typeof',) and b.kind == ('typeof',):
+                r = self.th.same_type(a.t, b.t)
             else:
                 raise OutOfSubset('is-comparison')
             return r if isinstance(op, ast.Is) else neg(r)
@@ -554,6 +580,10 @@ class Exec:
                 r = self.th.mem(b.t, self.lift(a, 'str').t)
             elif b.kind == 'kset':
                 r = self.th.ks_mem(b.t, self.lift(a, 'str').t)
+            elif b.kind == 'emap':
+                r = self.th.ks_mem(self.th.em_dom(b.t), self.lift(a, 'str').t)
+            elif b.kind == ('cfgattr',) and b.t == 'predicates':
+                r = self.th.has_preds(self.lift(a, 'path').t)
             elif b.kind in ('E', 'ME') and a.kind == CONST and a.t in ('op', 'key'):
                 r = True
             else:
@@ -621,6 +651,12 @@ class Exec:
                 self.oblige(st, 'key', node, self.th.mem(base.t, key.t),
                             'dict key present: %s' % ast.unparse(node))
             return SVal('V', self.th.m_get(base.t, key.t))
+        if k == 'emap':
+            key = self.lift(iv, 'str')
+            if not self.spec_mode:
+                self.oblige(st, 'key', node, self.th.ks_mem(self.th.em_dom(base.t), key.t),
+                            'dict key present: %s' % ast.unparse(node))
+            return SVal('ME', self.th.em_get(base.t, key.t))
         if k == ('cfgattr',):
             if base.t == 'differs':
                 return SVal('fn', self.th.differs_at(self.lift(iv, 'path').t))
@@ -825,6 +861,14 @@ class Exec:
             return v
         raise OutOfSubset('list() of %r' % (v.kind,))
 
+    def call_type(self, node, st):
+        if len(node.args) != 1:
+            raise OutOfSubset('type() with %d arguments' % len(node.args))
+        v = self.ev(node.args[0], st)
+        if v.kind != 'V':
+            raise OutOfSubset('type() of %r' % (v.kind,))
+        return SVal(('typeof',), v.t)
+
     def call_bool(self, node, st):
         t = self.truth(self.ev(node.args[0], st))
         return const(t) if isinstance(t, bool) else SVal('bool', t)
@@ -843,6 +887,11 @@ class Exec:
         v = self.ev(node.args[0], st)
         if v.kind == 'kset' and not node.keywords:
             return SVal(('seq', 'str'), self.th.sorted_keys(v.t))
+        if v.kind == ('emapvalues',) and len(node.keywords) == 1 and node.keywords[0].arg == 'key':
+            lam = node.keywords[0].value
+            if isinstance(lam, ast.Lambda) and len(lam.args.args) == 1 and isinstance(lam.body, ast.Attribute) \
+                    and isinstance(lam.body.value, ast.Name) and lam.body.value.id == lam.args.args[0].arg and lam.body.attr == 'key':
+                return SVal(('seq', 'ME'), self.th.sorted_entries(v.t))
         raise OutOfSubset('sorted() of %r' % (v.kind,))
 
     # spec-only helpers ---------------------------------------------------------------------
@@ -922,6 +971,14 @@ class Exec:
         if q in self.reg.contracts:
             args, kwargs = self.args_of(node, st)
             c = self.reg.contracts[q]
+            # kind variants: a second contract of the same real function for other parameter kinds, keyed `<qualname>#<tag>`
+            for vq, vc in self.reg.contracts.items():
+                if vq.startswith(q + '#'):
+                    mism = [i for i, (a, p) in enumerate(zip(args, c.params)) if a.kind in ('str', 'int') and p[1] in ('str', 'int')
+                            and a.kind != p[1]]
+                    if mism and all(args[i].kind == vc.params[i][1] for i in mism):
+                        c = vc
+                        break
             if c.inline:
                 return self.inline_call(c, None, args, kwargs, node, st)
             return self.apply_contract(c, None, args, kwargs, node, st)
@@ -1031,6 +1088,8 @@ class Exec:
             return self.apply_contract(c, base, args, kwargs, node, st)
         if k == 'map' and attr == 'keys':
             return SVal('kset', self.th.m_dom(base.t))
+        if k == 'emap' and attr == 'values' and not node.args:
+            return SVal(('emapvalues',), base.t)
         if k == 'kset' and attr == 'add':
             args, _ = self.args_of(node, st)
             self.check_mutation(node.func.value, st)
@@ -1235,6 +1294,9 @@ class Exec:
             elif k == 'map':
                 key = self.lift(self.ev(target.slice, st), 'str')
                 self.store(target.value, SVal('map', self.th.m_put(base.t, key.t, self.lift(val, 'V').t)), st)
+            elif k == 'emap':
+                key = self.lift(self.ev(target.slice, st), 'str')
+                self.store(target.value, SVal('emap', self.th.em_put(base.t, key.t, self.lift(val, 'ME').t)), st)
             else:
                 raise OutOfSubset('subscript store on %r' % (k,))
         elif isinstance(target, (ast.Tuple, ast.List)):
@@ -1409,7 +1471,7 @@ class Exec:
         return s.check() != z3.unsat
 
     # loops -------------------------------------------------------------------------------
-    def assigned_names(self, stmts):
+    def assigned_names(self, stmts, rebinding_only=False):
         names = set()
         for n in ast.walk(ast.Module(body=list(stmts), type_ignores=[])):
             if isinstance(n, ast.Name) and isinstance(n.ctx, (ast.Store, ast.Del)):
@@ -1426,7 +1488,7 @@ class Exec:
                         t = t.value
                     if isinstance(t, ast.Name):
                         names.add(t.id)
-            elif isinstance(n, ast.Call) and isinstance(n.func, ast.Attribute) and n.func.attr in MUTATORS:
+            elif isinstance(n, ast.Call) and isinstance(n.func, ast.Attribute) and n.func.attr in MUTATORS and not rebinding_only:
                 t = n.func.value
                 while isinstance(t, (ast.Subscript,)):
                     t = t.value
@@ -1477,9 +1539,12 @@ class Exec:
     def havoc_loop(self, body, st, extra=()):
         names = self.assigned_names(body) | set(extra)
         self._last_havoc = names
+        rebound = self.assigned_names(body, rebinding_only=True) | set(extra)
         for nme in sorted(names):
             if nme in st.env:
                 v = st.env[nme]
+                if isinstance(v.kind, tuple) and v.kind[0] == 'obj' and nme not in rebound:
+                    continue        # a method call on an object variable: its fields are havocked below, its identity stays
                 if v.kind == EMPTYLIST:
                     dk = self.contract.locals.get(nme)
                     if dk is None:
@@ -1861,6 +1926,17 @@ SPEC_FUNCS = {
     'enum_keys': (['kset'], ('seq', 'str'), lambda th: th.enum_keys),
     'enum_pos': (['kset', 'str'], 'int', lambda th: th.enum_pos),
     'keys_of': (['map'], 'kset', lambda th: th.m_dom),
+    'ekeys_of': (['emap'], 'kset', lambda th: th.em_dom),
+    'keyed': (['emap'], 'bool', lambda th: th.keyed),
+    'em_put': (['emap', 'str', 'ME'], 'emap', lambda th: th.em_put),
+    'sorted_keys': (['kset'], ('seq', 'str'), lambda th: th.sorted_keys),
+    'key_pos': (['kset', 'str'], 'int', lambda th: th.key_pos),
+    'kdiff': (['kset', 'kset'], 'kset', lambda th: th.ks_diff),
+    'kinter': (['kset', 'kset'], 'kset', lambda th: th.ks_inter),
+    'same_type': (['V', 'V'], 'bool', lambda th: th.same_type),
+    'has_preds': (['path'], 'bool', lambda th: th.has_preds),
+    'path_norm': (['path'], 'path', lambda th: th.path_norm),
+    'path_key': (['path', 'str'], 'path', lambda th: th.path_key),
     'sorted_b': ([('seq', 'E')], 'bool', lambda th: th.sorted_b),
     'gap_ok': ([('seq', 'V'), ('seq', 'V'), 'fn', 'int', 'int', 'int'], 'bool', lambda th: th.gap_ok),
     'al': ([('seq', 'V'), ('seq', 'V'), ('seq', 'E'), 'fn'], 'bool', lambda th: th.al),
